@@ -110,6 +110,10 @@ def run(ctx):
     pa = ctx.prove(PROPS, clean=(COQ_FILES if ctx.tier == "thorough" else False))
     ctx.log("proof ok=%s obligations=%d closed=%d" % (pa["ok"], pa["obligations"], pa["print_assumptions_closed"]))
     vlib.proof_coverage(ctx, pa)
+    # the cases protocol (Cases.v) is not a dependency of the Props file: build it explicitly
+    rc, out = ctx.coq_make(["theories/Contain/Cases.vo"])
+    if rc != 0:
+        raise RuntimeError("Contain/Cases.v failed to build: " + out[-2000:])
     if ctx.tier == "thorough" and pa["ok"]:
         chk = ctx.coqchk(["Scalibr.Contain.Props_C06"])
         ctx.coverage["coqchk"] = chk
